@@ -247,6 +247,12 @@ def c15_stmt(kind, k, ctx):
         return Asg("flag", Bool(False))
     if kind == "defer-sayguard":
         return Jump("defer", Say(Int(100 + k)), Say(Bool(True)))
+    if kind == "defer-callok":          # deferred expressions that call functions with defers of their own
+        return Jump("defer", Call(Id("gok")))
+    if kind == "defer-callmany":
+        return Jump("defer", Call(Id("gmany")))
+    if kind == "defer-callbad":
+        return Jump("defer", Call(Id("gbad")))
     if kind == "call-ok":
         return Call(Id("gok"))
     if kind == "call-raise":
@@ -255,14 +261,24 @@ def c15_stmt(kind, k, ctx):
 
 
 C15_KINDS = ["mark", "defer", "defer-t", "defer-f", "defer-raise", "return", "return-t", "return-f", "raise", "raise-stopiter", "raise-div0",
-             "raise-name", "call-ok", "call-raise", "call-stopiter", "defer-flag", "defer-notflag", "flag-off", "defer-sayguard"]
+             "raise-name", "call-ok", "call-raise", "call-stopiter", "defer-flag", "defer-notflag", "flag-off", "defer-sayguard",
+             "defer-callok", "defer-callmany", "defer-callbad"]
 
 
 def c15_program(kinds, form):
     body = [Asg("flag", Bool(True))] + [c15_stmt(kd, i + 1, form) for i, kd in enumerate(kinds)] + [Int(99)]
+    if form.startswith("bare"):          # the body is exactly these statements: one-statement bodies, bodies that end with a defer
+        body = [c15_stmt(kd, i + 1, form) for i, kd in enumerate(kinds)]
     pre = [Asg("gok", Fn([], [Jump("defer", Say(Int(201))), Say(Int(202)), Jump("return", Int(203)), Say(Int(204))])),
            Asg("gbad", Fn([], [Jump("defer", Say(Int(301))), Jump("defer", Say(Int(302)), Bool(True)), Raise("Err", "nested"), Say(Int(303))])),
-           Asg("gstop", Fn([], [Jump("defer", Say(Int(501))), Raise("StopIterErr", "inner stop"), Say(Int(502))]))]
+           Asg("gstop", Fn([], [Jump("defer", Say(Int(501))), Raise("StopIterErr", "inner stop"), Say(Int(502))])),
+           Asg("gmany", Fn([], [Jump("defer", Say(Int(601))), Jump("defer", Say(Int(602))), Jump("defer", Say(Int(603))), Jump("defer", Say(Int(604))), Say(Int(605))]))]
+    if form == "bare-func":
+        return pre + [Asg("flag", Bool(True)), Asg("f", Fn([], body)), Say(Arr(Call(Id("f")))), Say(Str("after"))]
+    if form == "bare-stmtcall":       # the call is a statement of another function: whatever it returns must not be treated as that function's defer
+        return pre + [Asg("flag", Bool(True)), Asg("f", Fn([], body)), Asg("w", Fn([], [Call(Id("f")), Say(Int(402)), Call(Id("f")), Int(403)])), Say(Call(Id("w"))), Say(Str("after"))]
+    if form == "bare-literal":
+        return pre + [Asg("flag", Bool(True)), Say(Arr(LCall(Int(1), Fn(["x"], body)))), Say(Str("after"))]
     if form == "func":
         return pre + [Asg("f", Fn([], body)), Say(Call(Id("f"))), Say(Str("after"))]
     if form == "method":
@@ -284,6 +300,9 @@ def c15_family(n_all_forms, n_func_only):
             forms = ["func", "method", "literal", "try", "nested"] if n <= n_all_forms else ["func"]
             for form in forms:
                 progs.append((f"{form}:{','.join(kinds)}", c15_program(kinds, form)))
+            if n <= n_all_forms:
+                for form in ("bare-func", "bare-stmtcall", "bare-literal"):
+                    progs.append((f"{form}:{','.join(kinds)}", c15_program(kinds, form)))
     return progs
 
 
